@@ -117,3 +117,96 @@ Example ex_script_gauge_hyp :
   let st := upd (upd empty "xi" (VV [1; 2; 6])) "log_v0" (VV [-3; -4]) in
   st "xi"%string = Some (VV [1; 2; 6]) /\ st "log_v0"%string = Some (VV [-3; -4]) /\ (false = true -> st "n_log_nu"%string = Some (VV [])).
 Proof. simpl. repeat split; discriminate. Qed.
+
+(** ** composition: the translated step, run on a store, leaves every traced formula unchanged, individual by
+    individual and coordinate by coordinate — script semantics ([script_gauge]) + gauge invariance of the formulas *)
+
+(** all the traced trajectory / attachment formulas (every kind, without and with a space shift) take the same value at
+    (xi', log_v0') as at (xi, log_v0) *)
+Definition formulas_invariant (x x' l l' : R) : Prop :=
+  forall lg g tau t w y s : R,
+    (gen_logistic_traj lg l' x' tau t = gen_logistic_traj lg l x tau t /\
+     gen_linear_traj g l' x' tau t = gen_linear_traj g l x tau t /\
+     gen_joint_traj lg l' x' tau t = gen_joint_traj lg l x tau t) /\
+    (gen_logistic_traj_src lg l' x' tau t w = gen_logistic_traj_src lg l x tau t w /\
+     gen_linear_traj_src g l' x' tau t w = gen_linear_traj_src g l x tau t w /\
+     gen_joint_traj_src lg l' x' tau t w = gen_joint_traj_src lg l x tau t w /\
+     gen_mixture_traj_src lg l' x' tau t w = gen_mixture_traj_src lg l x tau t w) /\
+    (gen_logistic_attach y s lg l' x' tau t = gen_logistic_attach y s lg l x tau t /\
+     gen_linear_attach y s g l' x' tau t = gen_linear_attach y s g l x tau t /\
+     gen_joint_attach y s lg l' x' tau t = gen_joint_attach y s lg l x tau t /\
+     gen_logistic_attach_src y s lg l' x' tau t w = gen_logistic_attach_src y s lg l x tau t w /\
+     gen_linear_attach_src y s g l' x' tau t w = gen_linear_attach_src y s g l x tau t w /\
+     gen_joint_attach_src y s lg l' x' tau t w = gen_joint_attach_src y s lg l x tau t w /\
+     gen_mixture_attach_src y s lg l' x' tau t w = gen_mixture_attach_src y s lg l x tau t w).
+
+(** the Weibull event terms of the joint model at (xi', n_log_nu') and at (xi, n_log_nu) *)
+Definition event_invariant (x x' n n' : R) : Prop :=
+  forall et eb lrho tau s : R,
+    gen_joint_event et eb lrho n' x' tau = gen_joint_event et eb lrho n x tau /\
+    gen_joint_event_src et eb lrho n' x' tau s = gen_joint_event_src et eb lrho n x tau s.
+
+Local Open Scope string_scope.
+
+Definition step_preserves (nu : bool) (s : list sop) : Prop :=
+  forall (st : store) (xs lv nul : list R),
+    st "xi" = Some (VV xs) -> st "log_v0" = Some (VV lv) -> (nu = true -> st "n_log_nu" = Some (VV nul)) ->
+    exists st' xs' lv',
+      run_script s st empty = Some st' /\ st' "xi" = Some (VV xs') /\ st' "log_v0" = Some (VV lv') /\
+      length xs' = length xs /\ length lv' = length lv /\
+      (xs <> [] -> mean xs' = 0) /\
+      (forall i k, (i < length xs)%nat -> (k < length lv)%nat ->
+         formulas_invariant (nth i xs 0) (nth i xs' 0) (nth k lv 0) (nth k lv' 0)) /\
+      (nu = true -> exists nul', st' "n_log_nu" = Some (VV nul') /\ length nul' = length nul /\
+         forall i q, (i < length xs)%nat -> (q < length nul)%nat ->
+           event_invariant (nth i xs 0) (nth i xs' 0) (nth q nul 0) (nth q nul' 0)) /\
+      (nu = false -> st' "n_log_nu" = st "n_log_nu") /\
+      (forall v, v <> "xi" -> v <> "log_v0" -> v <> "n_log_nu" -> st' v = st v).
+
+Local Open Scope R_scope.
+
+Lemma nth_center xs i : (i < length xs)%nat -> nth i (center xs) 0 = nth i xs 0 - mean xs.
+Proof.
+  intros H. unfold center. rewrite (nth_indep _ 0 (0 - mean xs)) by (now rewrite map_length).
+  apply (map_nth (fun x => x - mean xs)).
+Qed.
+
+Lemma nth_shift m l k : (k < length l)%nat -> nth k (shift m l) 0 = nth k l 0 + m.
+Proof.
+  intros H. unfold shift. rewrite (nth_indep _ 0 (0 + m)) by (now rewrite map_length).
+  apply (map_nth (fun x => x + m)).
+Qed.
+
+Lemma formulas_invariant_move m x l : formulas_invariant x (x - m) l (l + m).
+Proof.
+  intros lg g tau t w y s. split; [|split; [|]].
+  - apply gauge_traj.
+  - destruct (gauge_traj_src m lg g l x tau t w) as (A & B & C). destruct (gauge_mixture m y s lg l x tau t w) as (D & _). auto.
+  - destruct (gauge_attach m y s lg g l x tau t w) as (A & B & C & D & E & F).
+    destruct (gauge_mixture m y s lg l x tau t w) as (_ & G). repeat split; assumption.
+Qed.
+
+Lemma event_invariant_move m x n : event_invariant x (x - m) n (n + m).
+Proof. intros et eb lrho tau s. apply gauge_event. Qed.
+
+Lemma script_gauge_preserves nu s : script_gauge nu s -> step_preserves nu s.
+Proof.
+  intros H st xs lv nul Hxi Hlv Hnu.
+  destruct (H st xs lv nul Hxi Hlv Hnu) as (st' & Hrun & Hx & Hl & Hn & Hrest).
+  exists st', (center xs), (shift (mean xs) lv).
+  split; [exact Hrun|]. split; [exact Hx|]. split; [exact Hl|].
+  split; [apply center_length|]. split; [unfold shift; apply map_length|].
+  split; [apply mean_center|].
+  split.
+  { intros i k Hi Hk. rewrite nth_center, nth_shift by assumption. apply formulas_invariant_move. }
+  split.
+  { intros E. subst nu. exists (shift (mean xs) nul). split; [exact Hn|]. split; [unfold shift; apply map_length|].
+    intros i q Hi Hq. rewrite nth_center, nth_shift by assumption. apply event_invariant_move. }
+  split; [intros E; subst nu; exact Hn | exact Hrest].
+Qed.
+
+(** every copy of the step found in the source is a pure gauge change of every traced formula *)
+Theorem all_steps_preserve : Forall (fun e => step_preserves (fst (snd e)) (snd (snd e))) gen_center_scripts.
+Proof.
+  eapply Forall_impl; [|exact all_scripts_gauge]. intros e. apply script_gauge_preserves.
+Qed.
